@@ -138,6 +138,10 @@ def rust():
         ty = "%sfn(%s)%s" % (b["q"], ", ".join(b["params"]), "" if b["ret"] == "()" else " -> " + b["ret"])
         o.append("        %d => injectorpp::func!(bg_t%d, %s)," % (k, k, ty))
     o.append("        _ => panic!(\"harness: no such bool target\"),\n    }\n}")
+    o.append("pub fn bg_target_unchecked(k: usize) -> FuncPtr {\n    unsafe { match k {")
+    for k, b in enumerate(BOOL_FAMILY):
+        o.append("        %d => injectorpp::func_unchecked!(bg_t%d)," % (k, k))
+    o.append("        _ => panic!(\"harness: no such bool target\"),\n    } }\n}")
     o.append("/// call a member whose return type really is bool; None for the others\npub fn bg_call(k: usize) -> Option<bool> {\n    MARK.store(0, SeqCst);\n    match k {")
     for k, b in enumerate(BOOL_FAMILY):
         if b["is_bool"]:
